@@ -119,7 +119,7 @@ def w_alias(_):
     acc = Acc()
     fns1 = [aero.pressure, aero.density, aero.temperature, aero.vsound]
     fns2 = [aero.tas2cas, aero.cas2tas, aero.tas2eas, aero.eas2tas, aero.tas2mach, aero.mach2tas, aero.mach2cas, aero.cas2mach]
-    steps = [0.0, 5000.0, -300.0, 6000.0, 11000.0 - 10700.0, 9000.0, -20000.0]
+    steps = [0.0, 5000.0, -300.0, 3000.0, 300.0, 800.0, -9000.0]     # every altitude stays inside [-500 m, 20 km]
     for f in fns1:
         H = np.array([0.0, 5000.0, 10900.0])
         for dh in steps:
